@@ -320,6 +320,13 @@ func vpEnumLife() [][]any {
 	// rebound after an absence just short of the TTL, then gone again at once: the absence counts from the rebinding
 	add(conf(1), vpCreate(1, 1, "sts", "short"), pc(1), ec(1), vpEnv("pod_gone", 1), pc(1), ec(1), vt.M{"a": "elapse", "ms": vpTTLShort - 3000}, gcr,
 		vpCreate(1, 2, "sts", "short"), pc(1), pc(1), pc(1), ec(1), dm(1), vpEnv("pod_gone", 1), pc(1), ec(1), vt.M{"a": "elapse", "ms": 6000}, gcr, ec(1), ec(1))
+	// the daemon is asked (for the current and for the previous pod instance) after every single step of a fixed-IP life:
+	// Initial, Bind, Detaching with the pod object still there, Unbind, new UID written, Binding, Bind again
+	for _, k := range []string{"short", "never"} {
+		add(conf(1), vpCreate(1, 1, "sts", k), dm(1), pc(1), dm(1), ec(1), dm(1), stale(1), vpEnv("pod_exit", 1), dm(1), pc(1), dm(1), stale(1), ec(1), dm(1), vpEnv("pod_gone", 1),
+			vpCreate(1, 2, "sts", k), dm(1), stale(1), pc(1), dm(1), stale(1), pc(1), dm(1), stale(1), pc(1), dm(1), stale(1), ec(1), dm(1), stale(1),
+			vpEnv("pod_term", 1), dm(1), pc(1), dm(1), vpEnv("pod_exit", 1), pc(1), dm(1), ec(1), dm(1))
+	}
 	// an attach that took effect but never led to Bind (a later interface failed / the status write lost a race with the
 	// collector's time-stamp refresh), then the pod comes back on the other node before the pod controller saw it absent
 	add(conf(1), vpCreate(1, 1, "none", "elastic", "elastic"), pc(1), ec(1, vpFail("attach", 2, false)), vpEnv("pod_gone", 1), vpCreate(1, 2, "none", "elastic", "elastic"), dm(1))
